@@ -387,11 +387,13 @@ func (e *Encoder) writeObjectValue(w *bytes.Buffer, v rdf.ObjectValue) error {
 	case rdf.Literal:
 		literal = o
 
-		switch literal.Datatype {
-		case xsdiri.Boolean_Datatype, xsdiri.Decimal_Datatype, xsdiri.Double_Datatype, xsdiri.Integer_Datatype, xsdiri.Long_Datatype:
+		if bareDatatype, ok := bareLiteralDatatype(literal.LexicalForm); ok && bareDatatype == literal.Datatype {
 			w.Write([]byte(literal.LexicalForm))
 
 			return nil
+		}
+
+		switch literal.Datatype {
 		case rdfiri.LangString_Datatype:
 			w.WriteString(formatLiteralLexicalForm(literal.LexicalForm, false))
 
